@@ -117,3 +117,31 @@ Theorem C17_step_keeps_balance : forall md5, (forall x, length (md5 x) = 16%nat)
   Bal nclients nservers st -> Bal nclients nservers (hstep md5 rx cfg st op).
 Proof. intros md5 L W rx cfg nc ns st op Hc. exact (Bal_hstep md5 L W rx cfg nc ns Hc st op). Qed.
 Print Assumptions C17_step_keeps_balance.
+
+(* "not retained once its client is gone": after removeclient nothing of that client is left in its duplicate cache or
+   its reply queue (every cached request's server slot was released with it: C10_supersede_cancels); together with
+   C17_exactly_once -- counter = places that refer to the object -- a request that was only held there is released *)
+From RSP Require Import Slotinv_proofs.
+Theorem C17_client_gone_forgets : forall st c, safe st zero ->
+  (forall j, (j < 256)%nat -> entry (removeclient st c) c j = None) /\ c_replyq (get_client (removeclient st c) c) = [].
+Proof. exact removeclient_empties. Qed.
+Print Assumptions C17_client_gone_forgets.
+
+(* ... and every request that came from the client is released with it.  For every reachable state (valid history,
+   as in C17_exactly_once): after removeclient no live request object names that client as its originator -- whatever
+   was cached, queued for it or in flight towards a server has been let go by all its holders and freed.
+   Carried by four invariants over all histories: Bal (counter = holders), SLOT (a request in a server's table names that
+   server and identifier), RQI (a queued reply belongs to a request of that client) and INV3 (a request in a server's
+   table is registered in its client's duplicate cache): Proofs/Slotinv_proofs.v, Rqi_proofs.v, Inv3_proofs.v. *)
+From RSP Require Import Rqi_proofs Inv3_proofs.
+Theorem C17_client_gone_releases_its_requests : forall md5, (forall x, length (md5 x) = 16%nat) -> (forall x, wf_bytes (md5 x) = true) ->
+  forall rx cfg nclients nservers ops c, cfg_ok cfg nservers -> Forall (op_ok nclients nservers) ops ->
+  let st := fold_left (hstep md5 rx cfg) ops (init_state nclients nservers) in
+  forall h r, get_rq (removeclient st c) h = Some r -> rq_from r <> Some c.
+Proof.
+  intros md5 L W rx cfg nc ns ops c Hc Ho st.
+  assert (F : Full nc ns st) by (apply (Full_history md5 L W rx cfg nc ns Hc); [exact Ho | apply Full_init]).
+  clearbody st.
+  exact (client_gone_releases nc ns st c F (Full_removeclient nc ns st c F)).
+Qed.
+Print Assumptions C17_client_gone_releases_its_requests.
